@@ -1,6 +1,7 @@
 SPECIFICATION Spec
 CONSTANTS
   MaxWrites = 1
+  MaxFaults = 0
   MaxCrashes = 1
   ClassSel = "entry"
   Defects = {"deleteBeforeFlush", "renorm"}
